@@ -3,11 +3,14 @@
 Tie: the registry is regenerated from adsorbates.json and default.db on every run (uniqueness and lookup
 theorems re-checked in the kernel); exhaustive correspondence of `Adsorbate.find` and of the isotherm
 constructor with the Lean lookup over every alias x case variant; the fallback model `propValue` against
-every accessor.  Measured (not proved): CoolProp consistency on the backend-linked fluids.
+every accessor; the accessor descriptors generated from core/adsorbate.py and core/material.py (Gen/Accessors.lean = Spec/Accessors.lean
+by `decide`) run by Model/Accessor.lean against the real methods on stub-backed private adsorbates (pgv/acclib.py).
+Measured (not proved): CoolProp consistency on the backend-linked fluids.
 """
 import itertools
 import math
 
+from pgv import acclib
 from pgv.core import close, err_class, frac, import_pygaps, tok
 
 PA = {"Pa": 1.0, "kPa": 1e3, "MPa": 1e6, "mbar": 100.0, "bar": 1e5, "atm": 101325.0, "mmHg": 133.322, "torr": 133.322}
@@ -160,6 +163,10 @@ def run(ck):
 
     # ------------------------------------------------------------------ 3. fallback logic vs propValue (model) on every accessor
     ACC = [("molar_mass", "molar_mass", lambda a, c: a.molar_mass(calculate=c)),
+           ("p_triple", "p_triple", lambda a, c: a.p_triple(calculate=c)),
+           ("t_triple", "t_triple", lambda a, c: a.t_triple(calculate=c)),
+           ("p_critical", "p_critical", lambda a, c: a.p_critical(calculate=c)),
+           ("t_critical", "t_critical", lambda a, c: a.t_critical(calculate=c)),
            ("saturation_pressure", "saturation_pressure", lambda a, c: a.saturation_pressure(500.0, calculate=c)),
            ("surface_tension", "surface_tension", lambda a, c: a.surface_tension(500.0, calculate=c)),
            ("liquid_density", "liquid_density", lambda a, c: a.liquid_density(500.0, calculate=c)),
@@ -169,6 +176,8 @@ def run(ck):
            ("enthalpy_liquefaction", "enthalpy_liquefaction", lambda a, c: a.enthalpy_liquefaction(500.0, calculate=c)),
            ("enthalpy_vaporisation", "enthalpy_vaporisation", lambda a, c: a.enthalpy_vaporisation(500.0, calculate=c))]
     # T = 500 K is above the critical point of nitrogen: the backend raises for every saturation property
+    N2_CONST = {"molar_mass": 28.01348, "p_triple": 12519.78348430944, "t_triple": 63.151, "p_critical": 3395800.0, "t_critical": 126.192}
+    USER_SCALE = {"p_triple": 1e5, "p_critical": 1e5}   # the two pressures are stored in bar (convention of the shipped data), returned in Pa
     cases, plines = [], []
     for (acc, key, fn), calc, has_backend, has_user in itertools.product(ACC, [True, False], [True, False], [True, False]):
         props = {}
@@ -182,18 +191,19 @@ def run(ck):
         except Exception as e:  # noqa
             got = ("err", err_class(e))
         backend_val = None
-        if acc == "molar_mass" and has_backend:
-            backend_val = 28.01348          # the only accessor the backend can answer at 500 K
-        cases.append((acc, calc, has_backend, has_user, got, backend_val))
-        plines.append(f"prop {'T' if calc else 'F'} {tok(backend_val) if backend_val is not None else '~'} {'25/2' if has_user else '~'}")
+        if has_backend:
+            backend_val = N2_CONST.get(acc)     # the accessors the backend can answer at 500 K: the state-independent constants
+        uval = 12.5 * USER_SCALE.get(acc, 1.0)  # documented unit of the stored value -> unit of the accessor
+        cases.append((acc, calc, has_backend, has_user, got, backend_val, uval))
+        plines.append(f"prop {'T' if calc else 'F'} {tok(backend_val) if backend_val is not None else '~'} {tok(uval) if has_user else '~'}")
     prep = ck.drive("Registry", plines) if rep is not None else [None] * len(plines)
-    for (acc, calc, hb, hu, got, bv), pr in zip(cases, prep):
+    for (acc, calc, hb, hu, got, bv, uval), pr in zip(cases, prep):
         ck.count(("fallback", acc, calc, hb, hu), bucket="fallback")
         # property oracle: backend value, else the user value, else CalculationError — never anything else
         if calc and bv is not None:
             exp = ("ok", bv)
         elif hu:
-            exp = ("ok", 12.5)
+            exp = ("ok", uval)
         else:
             exp = ("err", "calc")
         okk = (got[0] == exp[0]) and (got[1] == exp[1] if got[0] == "err" else abs(got[1] - exp[1]) <= 1e-3 * abs(exp[1]))
@@ -223,12 +233,48 @@ def run(ck):
                     continue
                 if abs(v * PA[u] - 101325.0) > 1e-9 * 101325.0:
                     ck.fail_case({"clause": "fallback", "accessor": meth, "what": "unit honoured", "backend": has_backend}, {"unit": u, "value": v, "expected": 101325.0 / PA[u]})
+    # ------------------------------------------------------------------ 4. stored value vs backend value on the shipped adsorbates
+    # (failing-input search for a wrong scale between the dictionary convention and the accessor's unit: the ratio stored/calculated is
+    #  the same power of ten for every fluid, so its median is robust against single bad data entries, which are only listed)
+    outliers = []
+    for acc in ("molar_mass", "p_triple", "t_triple", "p_critical", "t_critical"):
+        ratios = []
+        for a in ads_list:
+            if not a.properties.get("backend_name") or a.properties.get(acc) is None:
+                continue
+            try:
+                u, b = float(getattr(a, acc)(calculate=False)), float(getattr(a, acc)())
+            except Exception:  # noqa
+                continue
+            if b > 0 and u > 0:
+                ratios.append((u / b, a.name, u, b))
+                ck.count(("stored-vs-backend", acc, a.name), bucket="stored-vs-backend")
+        if len(ratios) < 5:
+            continue
+        ratios.sort()
+        med = ratios[len(ratios) // 2]
+        if not 0.9 <= med[0] <= 1.1:
+            ck.fail_case({"clause": "fallback", "accessor": acc, "what": "stored value in the accessor's unit"},
+                         {"adsorbate": med[1], "calculate=False": med[2], "calculate=True": med[3], "ratio": med[0],
+                          "n_adsorbates": len(ratios), "note": "median over the shipped backend-linked adsorbates"})
+        outliers += [{"accessor": acc, "adsorbate": n, "stored": u, "backend": b} for r, n, u, b in ratios if not 2 / 3 <= r / med[0] <= 1.5]
+    ck.cov["stored_vs_backend_outliers"] = outliers
+
+    # ------------------------------------------------------------------ 5. generated accessor descriptors vs the real methods (stub backend)
+    ck.cov["accessor_correspondence"] = acclib.run_correspondence(ck, pg, thorough)
+
     ck.cov["exhaustive"] = True
     ck.cov["correspondence_disagreements"] = n_dis
+    # registry under store histories on other files (user adsorbates named like shipped names / aliases)
+    from pgv import regsession
+    regsession.run(ck, pg)
     ck.cov["rule"] = ("every shipped alias x {as is, upper, title, swapcase} through Adsorbate.find (exhaustive) and through an isotherm "
                       "constructor (quick: 400 sampled; thorough: all), negatives; backend-linked fluids x temperatures across (T_triple, T_critical) x 8 "
-                      "pressure units, accessors in shuffled call order against a fresh object; fallback: 9 accessors x calculate x backend x user value; "
-                      "non-trivial = positive lookups and consistency points")
+                      "pressure units, accessors in shuffled call order against a fresh object; fallback: 13 accessors x calculate x backend x user value; "
+                      "stored vs calculated constants on every shipped backend fluid; every accessor method x seeded stub backends "
+                      "(values / exceptions per getter and input) x user dictionaries x calculate x units against the generated and the "
+                      "specified descriptor run in Lean; Material getters and get_prop; "
+                      "non-trivial = positive lookups, consistency points and accessor calls")
     ck.assumptions += ["CoolProp values: consistency measured to 1e-9, not proved", "alias -> key encoding (base-256 of UTF-8) is the translator's; re-derived in Lean at run time (selfcheck)"]
 
 
